@@ -13,7 +13,7 @@ from vf.worker import R
 PROPERTY = "C19"
 LEVEL = "exploration"
 RULE = ("case = one RE(plan) call on an engine with 2..5 subscribed recording callbacks (name filters all/start/descriptor/"
-        "event/stop), 0..2 of which raise at their k-th document, under ignore_callback_exceptions True or False; plans "
+        "event/stop), 0..2 of which raise at their k-th document and at most one other of which unsubscribes itself while handling its k-th document (it gets nothing afterwards, the others are unaffected), under ignore_callback_exceptions True or False; plans "
         "emit 1-2 runs with 1-4 events in 1-2 streams; one global invocation log; oracle: every callback receives every "
         "document of its kinds exactly once and in emission order, for one document callbacks are invoked in subscription "
         "order; ignoring: a raising callback changes nothing for the others and the call returns; strict: the call raises "
@@ -22,7 +22,7 @@ RULE = ("case = one RE(plan) call on an engine with 2..5 subscribed recording ca
 ASSUMPTIONS = ["a callback raising on the RunStop document itself under the strict policy is not judged (the stop is already "
                "composed)", "the harness recorder is the first subscriber"]
 REQUIRED_COUNTERS = {"executions": 300, "deliveries_checked": 2500, "raising_ignored": 60, "raising_strict": 60,
-                     "order_checks": 1500}
+                     "order_checks": 1500, "self_unsubscribes": 15}
 MANIFEST = {
     "technique": "global invocation-log oracle (exactly-once, emission order, subscription order, error policy) on the real "
                  "dispatcher over seeded callback sets and raising positions",
@@ -65,6 +65,17 @@ def run_case(case):
         for c in rng.sample(range(ncb), k=rng.choice([0, 1, 1, 2]) if ncb >= 2 else 0):
             raise_at[c] = rng.randint(1, 4)
         thrown = {}
+        # one non-raising callback may unsubscribe ITSELF while handling its k-th document
+        unsub_at = {}
+        if rng.random() < 0.25:
+            cands = [c for c in range(ncb) if c not in raise_at]
+            if cands:
+                unsub_at[rng.choice(cands)] = rng.randint(1, 4)
+        tokens = {}
+
+        def exp_for(c, docs_):
+            exp = [(n, d.get("uid")) for n, d in docs_ if filters[c] in ("all", n)]
+            return exp[:unsub_at[c]] if c in unsub_at else exp
 
         def mk(idx):
             count = [0]
@@ -72,6 +83,8 @@ def run_case(case):
             def cb(name, doc):
                 inv.append((idx, name, doc.get("uid")))
                 count[0] += 1
+                if unsub_at.get(idx) == count[0]:
+                    RE.unsubscribe(tokens[idx])
                 if raise_at.get(idx) == count[0]:
                     e = Boom(f"cb{idx} at its document #{count[0]} ({name})")
                     thrown[idx] = (e, name, doc.get("uid"))
@@ -79,7 +92,7 @@ def run_case(case):
             return cb
 
         for c in range(ncb):
-            RE.subscribe(mk(c), filters[c])
+            tokens[c] = RE.subscribe(mk(c), filters[c])
         nruns = rng.choice([1, 1, 2])
         nev = rng.randint(1, 4)
         two_streams = rng.random() < 0.4
@@ -101,7 +114,8 @@ def run_case(case):
         h.close()
         docs = h.docs()
         problems = []
-        counters = {"executions": 1, "deliveries_checked": 0, "raising_ignored": 0, "raising_strict": 0, "order_checks": 0}
+        counters = {"executions": 1, "deliveries_checked": 0, "raising_ignored": 0, "raising_strict": 0, "order_checks": 0,
+                    "self_unsubscribes": 0}
         raised_any = bool(thrown)
         first_raise_doc = None
         if thrown:
@@ -115,9 +129,10 @@ def run_case(case):
             if res[0] != "ret":
                 problems.append((f"ignored-callback-exception-ended-the-call:{type(res[1]).__name__}", repr(res[1])))
             for c in range(ncb):
-                exp = [(n, d.get("uid")) for n, d in docs if filters[c] in ("all", n)]
+                exp = exp_for(c, docs)
                 got = [(n, u) for (k, n, u) in inv if k == c]
                 counters["deliveries_checked"] += len(exp)
+                counters["self_unsubscribes"] += int(c in unsub_at and len(got) >= unsub_at[c])
                 if got != exp:
                     kind = "missing" if len(got) < len(exp) else ("duplicated" if len(got) > len(exp) else "reordered")
                     problems.append((f"delivery-{kind}:{'raiser' if c in raise_at else 'bystander'}",
@@ -149,9 +164,10 @@ def run_case(case):
                 if res[0] != "ret":
                     problems.append((f"call-failed:{type(res[1]).__name__}", repr(res[1])))
                 for c in range(ncb):
-                    exp = [(n, d.get("uid")) for n, d in docs if filters[c] in ("all", n)]
+                    exp = exp_for(c, docs)
                     got = [(n, u) for (k, n, u) in inv if k == c]
                     counters["deliveries_checked"] += len(exp)
+                    counters["self_unsubscribes"] += int(c in unsub_at and len(got) >= unsub_at[c])
                     if got != exp:
                         problems.append(("delivery-differs", f"callback {c}: {len(got)} vs {len(exp)}"))
             # nobody sees a document twice even on the failure path
